@@ -3,6 +3,13 @@ package main
 // propTable: the properties claimed, their level and an honest statement of what the obligations decide.
 // Filled in as checks are built; a property absent here is listed under not_applicable in MANIFEST.json.
 var propTable = map[string]propInfo{
+	"C12": {
+		Level: "proof",
+		Explanation: "Contract-based deductive verification of quorum.MajorityConfig.{VoteResult,CommittedIndex} and quorum.JointConfig.{VoteResult,CommittedIndex}: " +
+			"the postconditions are the property's own sentences in counting form (cnt over the voter map): Won iff yes >= n/2+1, Lost iff yes+missing < n/2+1; " +
+			"committed index r with #{ack >= r} >= n/2+1 (r > 0) and #{ack > r} < n/2+1; joint = minimum with an empty half imposing no constraint. " +
+			"Map-range loops are verified for an arbitrary enumeration order with partial-count invariants; all obligations are unbounded VCs over the real SSA.",
+	},
 	"C16": {
 		Level: "proof",
 		Explanation: "Contract-based deductive verification of the real Go code: every function that implements a clause of the property " +
